@@ -180,6 +180,52 @@ func runC07(c *vu.Case, t *testing.T) {
 				pm.collectExpired(ctx)
 				out = "ok" + cacheStr()
 				feats["gc"] = true
+			case "gcclose":
+				// a manager with a periodic sweep on the same datastore: its sweep is held inside the datastore query when
+				// Close is called. Close must wait for it, and nothing touches the datastore once Close has returned.
+				cache2, _ := lru.NewLRU(capN, nil)
+				pm2, err := NewProviderManager(peer.ID("self"), pstore, cds, Cache(cache2), ProvideValidity(validity), CleanupInterval(3))
+				if err != nil {
+					panic(err)
+				}
+				cds.armed.Store(true)
+				held := false
+				select {
+				case <-cds.hit:
+					held = true
+				case <-time.After(1000):
+				}
+				cds.armed.Store(false)
+				g2 := make(chan struct{})
+				go func() { pm2.Close(); close(g2) }()
+				early := false
+				select {
+				case <-g2:
+					early = true
+				case <-time.After(1):
+				}
+				out = "ok"
+				var after int64
+				if early {
+					after = cds.n.Load()
+				}
+				if held {
+					cds.release <- struct{}{}
+				}
+				<-g2
+				synctest.Wait()
+				if !held {
+					out += "|NO-PERIODIC-SWEEP"
+				}
+				if early && held {
+					out += "|CLOSE-RETURNED-DURING-SWEEP"
+					if cds.n.Load() != after {
+						out += "|TOUCHED-DATASTORE-AFTER-CLOSE"
+					}
+				}
+				out += cacheStr()
+				before = cds.n.Load()
+				feats["gc"] = true
 			case "restart":
 				if len(in)%2 == 0 && !closed {
 					pm.Close()
@@ -435,7 +481,11 @@ func genC07(r *vu.RNG, c *vu.Case) bool {
 			}
 			c.In = append(c.In, fmt.Sprintf("adv %d", d))
 		case x < 90:
-			c.In = append(c.In, "gc")
+			if r.Chance(1, 4) {
+				c.In = append(c.In, "gcclose")
+			} else {
+				c.In = append(c.In, "gc")
+			}
 			if r.Bool() {
 				c.In = append(c.In, "disk")
 			}
